@@ -492,6 +492,19 @@ func forLoopsRuleSSA(r *Run) {
 			if nApp == 1 && !isValueOf(appended) {
 				addBad("a " + kind + " must contribute its Value to the loop's output")
 			}
+			if nApp == 0 {
+				// nothing appended: only when the object's Value was found nil on this path
+				valueNil := false
+				for _, d := range p.decisions {
+					x, op, ok := isNilCompare(p, d.cond)
+					if ok && d.truth == (op == token.EQL) && isValueOf(p.resolve(stripIface(p.resolve(x)))) {
+						valueNil = true
+					}
+				}
+				if !valueNil {
+					addBad("what the iteration produced before a " + kind + " is dropped (its Value must be appended unless it is nil)")
+				}
+			}
 			if nApp > 1 {
 				addBad("more than one value appended per iteration")
 			}
@@ -609,7 +622,7 @@ func loopReturnRuleSSA(r *Run, rule string) {
 				} else if _, _, isIx := reflectValueCall(rv, "Index"); isIx {
 					kind = "slice loop"
 				}
-			} else if _, isPhi := v.(*ssa.Phi); isPhi {
+			} else if fromIteratorNext(v) {
 				kind = "iterator loop"
 			}
 			kindOf[h] = kind
@@ -681,6 +694,27 @@ func loopReturnRuleSSA(r *Run, rule string) {
 				"a return reached inside the loop body is appended to the loop's output like ordinary text and the loop goes on; 'fn(){ for ... { return x } return 9 }' yields 9")
 		}
 	}
+}
+
+// fromIteratorNext: the value is the result of an invoked Next() -- directly
+// (the call sits at the top of the loop) or through the loop's phi (pre-fetch
+// before the loop and again at the end of the body).
+func fromIteratorNext(v ssa.Value) bool {
+	isNext := func(x ssa.Value) bool {
+		c, ok := stripIface(x).(*ssa.Call)
+		return ok && c.Call.IsInvoke() && c.Call.Method.Name() == "Next" && len(c.Call.Args) == 0
+	}
+	if isNext(v) {
+		return true
+	}
+	if phi, ok := v.(*ssa.Phi); ok {
+		for _, e := range phi.Edges {
+			if isNext(e) {
+				return true
+			}
+		}
+	}
+	return false
 }
 
 // forIterableRuleSSA (C08.R3): a nil iterable yields (nil, nil); a value that
